@@ -281,6 +281,7 @@ package implementation
 // raw reward of one pillar: divides by the pillar's expected block count and the epoch's total weight, both checked non-zero
 //@ func computePillarRewardForEpoch(detail, name)
 //@   safety
+//@   inline
 
 // distribution to backers: divides by the pillar's total backer weight, checked non-zero right before the loop
 //@ func computeDetailedPillarReward(context, epoch) -> (err)
@@ -307,6 +308,7 @@ package implementation
 // constant divisors
 //@ func getWeightedStakeAmount(amount, stakingTime)
 //@   safety
+//@   inline
 //@   requires amount != nil
 
 // liquidity rewards: percentages are divided by constants; each stake's share by the cumulated stake of its token, checked
@@ -316,10 +318,12 @@ package implementation
 // swap decay, bridge fee, fusion unit: constant divisors
 //@ func ApplyDecay(deposit, currentEpoch)
 //@   safety
+//@   inline
 //@ func WrapTokenMethod.ReceiveBlock(p, context, sendBlock)
 //@   safety
 //@ func FuseMethod.ValidateSendBlock(p, block)
 //@   safety
+//@   inline
 // the weighted stake is a new number; computing it changes nothing else
 //@ func getWeightedLiquidityStake(info, startTime, endTime)
 //@   requires info != nil && info.WeightedAmount != nil
